@@ -367,12 +367,16 @@ func rewriteNative(name string, src []byte) ([]byte, error) {
 			changed = true
 			var chans []ast.Expr
 			sw := &ast.SwitchStmt{Body: &ast.BlockStmt{}}
-			for i, c := range x.Body.List {
+			var defaultBody []ast.Stmt
+			hasDefault := false
+			for _, c := range x.Body.List {
 				cc := c.(*ast.CommClause)
 				var body []ast.Stmt
-				idx := &ast.BasicLit{Kind: token.INT, Value: fmt.Sprint(i)}
+				idx := &ast.BasicLit{Kind: token.INT, Value: fmt.Sprint(len(chans))}
 				if cc.Comm == nil {
-					ok = false
+					// default clause: the select does not block (zzrt.SelectRecvDefault returns -1 when no case is ready)
+					hasDefault = true
+					defaultBody = walkList(cc.Body)
 					continue
 				}
 				switch cm := cc.Comm.(type) {
@@ -404,6 +408,11 @@ func rewriteNative(name string, src []byte) ([]byte, error) {
 				sw.Body.List = append(sw.Body.List, &ast.CaseClause{List: []ast.Expr{idx}, Body: body})
 			}
 			sw.Tag = zz("SelectRecv", chans...)
+			if hasDefault {
+				sw.Tag = zz("SelectRecvDefault", chans...)
+				neg := &ast.UnaryExpr{Op: token.SUB, X: &ast.BasicLit{Kind: token.INT, Value: "1"}}
+				sw.Body.List = append(sw.Body.List, &ast.CaseClause{List: []ast.Expr{neg}, Body: defaultBody})
+			}
 			// keep the statement terminating when every case returns
 			sw.Body.List = append(sw.Body.List, &ast.CaseClause{Body: []ast.Stmt{
 				&ast.ExprStmt{X: &ast.CallExpr{Fun: ast.NewIdent("panic"), Args: []ast.Expr{&ast.BasicLit{Kind: token.STRING, Value: `"zzrt: select"`}}}}}})
